@@ -180,6 +180,21 @@ def biased_grammar(r, ledger=None):
         if r.random() < 0.4:
             e = seq(lit('head'), e, lit('end'))
         return [call('cmd', e)]
+    if kind < 0.2:
+        # inside a later || branch: a repeated or optional item that also begins a sibling alternative with another
+        # continuation - every occurrence belongs to that one branch, whatever operator it sits under
+        x = r.choice(['-v', 'again', 'k'])
+        wrap = r.choice([many, opt, lambda e: many(opt(e)), lambda e: seq(e, opt(e))])
+        sib = seq(lit(x), lit(r.choice(['--version', 'then', 't9'])))
+        inner = alt(wrap(lit(x)), sib) if r.random() < 0.5 else alt(sib, wrap(lit(x)))
+        first = r.choice([lit('--help'), seq(lit('h'), lit('e')), alt(lit('a1'), lit('a2'))])
+        brs = [first, inner]
+        if r.random() < 0.4:
+            brs.insert(1, lit('mid'))
+        e = fb(*brs)
+        if r.random() < 0.4:
+            e = seq(e, opt(lit('end')))
+        return [call('cmd', e)]
     if kind < 0.3:
         # same literal starts several || branches / call variants
         h = r.choice(L)
